@@ -54,6 +54,8 @@ type Builder struct {
 	nextID   int
 	pool     map[reflect.Type][]reflect.Value
 	IDs      []int
+	// Enums: type name → member count; such values are mostly declared members.
+	Enums map[string]int
 }
 
 func NewBuilder(c Chooser, task int) *Builder {
@@ -74,6 +76,12 @@ func (b *Builder) build(t reflect.Type, depth int, field string) reflect.Value {
 		v.SetBool((b.leaf+b.Task)&1 == 1)
 	case reflect.Int, reflect.Int8, reflect.Int16, reflect.Int32, reflect.Int64:
 		b.leaf++
+		if n, ok := b.Enums[t.Name()]; ok && n > 0 {
+			if pick := b.C.Int(0, n, "enum-member"); pick < n {
+				v.SetInt(int64((pick + b.Task) % n))
+				break
+			}
+		}
 		if b.UniqueID && field == "ID" {
 			b.nextID++
 			v.SetInt(int64(b.nextID))
